@@ -270,29 +270,36 @@ def unshareEvs : List Desc → List (Buf × Bool) → Option (List Ev)
     | [] => none                                              -- indirect_list[i] out of bounds
     | d :: t' => (unshareEvs t' rest).map fun l => .hal (.unshare d.addr b w) :: l
 
-def recycle (q : Q) (head : Nat) (ins outs : List Buf) : Option (Q × List Ev) :=
-  let origFree := q.freeHead
-  let q0 := { q with freeHead := head }
-  if q.n ≤ head then none else
+/-- state after the indirect branch freed the head descriptor and its table -/
+def indirectFreed (q0 : Q) (head origFree : Nat) : Q :=
   let hd := q0.get head
-  if hasFlag hd.flags fINDIRECT then
-    match q0.indirectLists.getD head none with
-    | none => none                                            -- take().unwrap()
-    | some table =>
-      if q0.numUsed = 0 then none else
-      let q1 := { (q0.setShadow head { hd with addr := 0, len := 0, next := origFree }) with
-                    numUsed := q0.numUsed - 1,
-                    indirectLists := q0.indirectLists.setIfInBounds head none,
-                    tables := q0.tables.filter fun (t, _) => some t != shareIdOf hd.addr }
-      let e0 : Ev := .hal (.unshareTable hd.addr (16 * table.length))
-      if table.length ≠ ins.length + outs.length then none else  -- assert_eq!
-      match unshareEvs table (tagBufs ins outs) with
-      | none => none
-      | some evs => some (q1, e0 :: evs)
-  else
-    match recycleLoop q0 origFree (some head) (tagBufs ins outs) [] with
+  { (q0.setShadow head { hd with addr := 0, len := 0, next := origFree }) with
+      numUsed := q0.numUsed - 1,
+      indirectLists := q0.indirectLists.setIfInBounds head none,
+      tables := q0.tables.filter fun (t, _) => some t != shareIdOf hd.addr }
+
+/-- indirect branch of `recycle_descriptors` (note: the head descriptor is *not* copied back to the
+device-visible table here) -/
+def recycleIndirect (q0 : Q) (head origFree : Nat) (ins outs : List Buf) : Option (Q × List Ev) :=
+  match q0.indirectLists.getD head none with
+  | none => none                                              -- take().unwrap()
+  | some table =>
+    if q0.numUsed = 0 then none else                          -- u16 `-=` underflow
+    if table.length ≠ ins.length + outs.length then none else -- assert_eq!
+    match unshareEvs table (tagBufs ins outs) with
     | none => none
-    | some (q1, next, evs) => if next.isSome then none else some (q1, evs)   -- "longer than expected"
+    | some evs =>
+      some (indirectFreed q0 head origFree, .hal (.unshareTable (q0.get head).addr (16 * table.length)) :: evs)
+
+def recycleDirect (q0 : Q) (head origFree : Nat) (ins outs : List Buf) : Option (Q × List Ev) :=
+  match recycleLoop q0 origFree (some head) (tagBufs ins outs) [] with
+  | none => none
+  | some (q1, next, evs) => if next.isSome then none else some (q1, evs)   -- "longer than expected"
+
+def recycle (q : Q) (head : Nat) (ins outs : List Buf) : Option (Q × List Ev) :=
+  if q.n ≤ head then none else
+  if hasFlag (q.get head).flags fINDIRECT then recycleIndirect { q with freeHead := head } head q.freeHead ins outs
+  else recycleDirect { q with freeHead := head } head q.freeHead ins outs
 
 /-- the used-ring element the driver reads next: `(id, len)` -/
 def Q.usedElem (q : Q) : Nat × Nat := q.usedRing.getD (slotOf q.n q.lastUsedIdx) (0, 0)
